@@ -718,7 +718,10 @@ def check_property(pid, tier, seed):
                 print('INCONCLUSIVE property=%s formula(s) %s failed once on episode %s but not on re-execution' % (pid, sorted(fs), epid), flush=True)
         mark('verdict pass 2 done')
         # ---- conformance pass: recorded gated traces must be behaviours of VarMQ.tla (Trace.tla)
-        elig = [e for e in usable if e['prog']['sched']['kind'] != 'free' and e['end']['result'] == 'ok' and (conform.eligible(e['prog']) or distconf.eligible(e['prog']))]
+        # (episodes that park at the on-demand hook notify.done are not validated: the specification takes "notify; return" of a
+        #  client call as one step, the parked notifier splits it)
+        elig = [e for e in usable if e['prog']['sched']['kind'] != 'free' and e['end']['result'] == 'ok' and e['prog']['sched'].get('label') != 'notify.done'
+                and (conform.eligible(e['prog']) or distconf.eligible(e['prog']))]
         rng2 = random.Random(seed)
         rng2.shuffle(elig)
         sample = sorted(elig[:60 if tier == 'quick' else 900], key=lambda e: len(e['events']))[:24 if tier == 'quick' else 600]
